@@ -141,27 +141,26 @@ def model_checks(ck, rho, points, mode, nspin, sl, rng, seed):
                     p = points[k][0]
                     ck.violation("eval_xc_cider:%s:non-finite-%s" % (tag, name),
                                  {"rho_a": p["rho_a"][1], "rho_b": p["rho_b"][1], "grad": p["grad"], "tau": p["tau"], "count": int(bad.sum())})
-            # masked points: zero derivative w.r.t. the nonlocal features, and no ML energy at all
-            if mix != "libxc2":
-                # reference without the ML part: same semilocal call
-                if slxc:
-                    xt = ni._xc_type(slxc)
-                    nvar = {"LDA": 1, "GGA": 4, "MGGA": 5}[xt]
-                    arg = np.ascontiguousarray(rr[0, :nvar]) if nspin == 1 else np.ascontiguousarray(rr[:, :nvar])
-                    exc_sl = np.asarray(ni.eval_xc_eff(slxc, arg, deriv=1, xctype=xt)[0])
-                else:
-                    exc_sl = np.zeros(N)
-                for k, (p, m0, m1) in enumerate(points):
-                    masks = [m0, m1][:nspin]
-                    for s in range(nspin):
-                        if masks[s] and np.any(vnl[s, :, k] != 0.0):
-                            ck.violation("eval_xc_cider:%s:masked-point-has-feature-derivative" % tag,
-                                         {"rho_a": p["rho_a"][1], "rho_b": p["rho_b"][1], "grad": p["grad"], "tau": p["tau"], "spin": s})
-                            break
-                    if all(masks) and np.isfinite(exc[k]) and np.isfinite(exc_sl[k]) and exc[k] != exc_sl[k]:
-                        ck.violation("eval_xc_cider:%s:masked-point-has-ml-energy" % tag,
-                                     {"rho_a": p["rho_a"][1], "rho_b": p["rho_b"][1], "grad": p["grad"], "tau": p["tau"],
-                                      "exc": float(exc[k]), "exc_semilocal": float(exc_sl[k])})
+            # masked points: zero derivative w.r.t. the nonlocal features (every model version), and no ML energy at all
+            # (version-1 models, where the semilocal remainder can be evaluated on its own as the reference)
+            if slxc and mix != "libxc2":
+                xt = ni._xc_type(slxc)
+                nvar = {"LDA": 1, "GGA": 4, "MGGA": 5}[xt]
+                arg = np.ascontiguousarray(rr[0, :nvar]) if nspin == 1 else np.ascontiguousarray(rr[:, :nvar])
+                exc_sl = np.asarray(ni.eval_xc_eff(slxc, arg, deriv=1, xctype=xt)[0])
+            else:
+                exc_sl = np.zeros(N)
+            for k, (p, m0, m1) in enumerate(points):
+                masks = [m0, m1][:nspin]
+                for s in range(nspin):
+                    if masks[s] and np.any(vnl[s, :, k] != 0.0):
+                        ck.violation("eval_xc_cider:%s:masked-point-has-feature-derivative" % tag,
+                                     {"rho_a": p["rho_a"][1], "rho_b": p["rho_b"][1], "grad": p["grad"], "tau": p["tau"], "spin": s})
+                        break
+                if mix != "libxc2" and all(masks) and np.isfinite(exc[k]) and np.isfinite(exc_sl[k]) and exc[k] != exc_sl[k]:
+                    ck.violation("eval_xc_cider:%s:masked-point-has-ml-energy" % tag,
+                                 {"rho_a": p["rho_a"][1], "rho_b": p["rho_b"][1], "grad": p["grad"], "tau": p["tau"],
+                                  "exc": float(exc[k]), "exc_semilocal": float(exc_sl[k])})
 
 
 def map_and_norm_checks(ck, rng):
